@@ -206,6 +206,70 @@ def build_and_check(R, nfuncs, nparams, local_counts, consts, names, label):
     R.maximum("largest_local_count", total_locals)
 
 
+def many_types(R, ntypes, label):
+    """a module with `ntypes` different function types, function i using type i: type indices >= 128 are written in place"""
+    W = nslapi.nsl.WebAssembly
+    m = W.Module()
+    for i in range(ntypes):
+        t = m.AddFunctionType(W.FunctionType([W.ValueType.i32] * (i % 9) + [W.ValueType.f32] * (i // 9 % 5), [W.ValueType.i32]))
+        idx = m.AddFunction(t)
+        m.AddExport(W.Export(idx, "t%d" % i))
+        code = W.Code()
+        code.AddInstruction(W.Instruction(W.opcodes["i32.const"], (i,)))
+        code.AddInstruction(W.Instruction(W.opcodes["return"]))
+        m.AddCode(code)
+    buf = io.BytesIO()
+    R.evaluations += 1
+    rep = {"mode": "types", "ntypes": ntypes}
+    try:
+        m.WriteTo(buf)
+    except Exception as e:
+        R.violation("writer-raises:%s" % type(e).__name__, "%s: WriteTo raised %s: %s" % (label, type(e).__name__, e), rep)
+        return
+    data = buf.getvalue()
+    try:
+        d = wasm_decode.decode(data)
+    except wasm_decode.DecodeError as e:
+        R.violation("written-module-does-not-decode:%s" % e.rule, "%s: %s (%s) at offset %s" % (label, e.rule, e.detail, e.offset), dict(rep, bytes_hex=data.hex()[:400]))
+        return
+    if list(d.funcs) != list(range(ntypes)):
+        bad = [(i, g) for i, g in enumerate(d.funcs) if i != g][:3]
+        R.violation("written-module-reads-back-differently:type-index", "%s: type indices of the function section read back differently (written, read): %s" % (label, bad), rep)
+        return
+    if [e[2] for e in d.exports] != list(range(ntypes)):
+        R.violation("written-module-reads-back-differently:export-index", "%s: export indices read back differently" % label, rep)
+        return
+    R.count("api_modules_read_back")
+    R.nontriv("types", ntypes)
+
+
+def emitted_many_functions(R, nfuncs, label):
+    """through the compiler: more than 127 functions in one module (function, type and export indices >= 128)"""
+    a = Var("a", INT)
+    funcs = [Func("q%d" % i, [(INT, "a")], INT, Block([Return(Bin("+", a, IntLit(i), INT))]), True) for i in range(nfuncs)]
+    src = print_module(Module(funcs=funcs))
+    e = wasmrun.emit(src, False)
+    R.evaluations += 1
+    rep = {"mode": "emitted-many", "nfuncs": nfuncs}
+    if not e.out.accepted or e.refused:
+        R.count("many_functions_refused")
+        return
+    if e.decode_error or e.validation_error:
+        why = e.decode_error[:2] if e.decode_error else e.validation_error
+        R.violation("emitted-module-with-many-functions-invalid:%s" % why[0], "%s: %s" % (label, why), rep)
+        return
+    if list(e.module.funcs) != list(range(nfuncs)) and len(set(e.module.funcs)) != 1:
+        R.violation("emitted-type-indices-read-back-differently", "%s: function section reads %s..." % (label, list(e.module.funcs)[:5]), rep)
+        return
+    for i in sorted({0, 127, 128, min(129, nfuncs - 1), nfuncs - 1}):
+        st, v = wasmrun.run_export(e, "q%d" % i, [1000])
+        if st != "ok" or v != 1000 + i:
+            R.violation("emitted-export-index-wrong", "%s: export q%d returns %r" % (label, i, (st, v)), rep)
+            return
+    R.count("emitted_many_functions_ok")
+    R.nontriv("many", nfuncs)
+
+
 def emitted_constants(R, rec, values, label):
     """programs `return a + K` / `return K`: the immediates must read back as K (signed)"""
     a = Var("a", INT)
@@ -274,6 +338,10 @@ def run_shard(tier, seed, shard, n, R):
     for i, (nf, np_, lc, cs, names) in enumerate(shapes):
         if i % n == shard:
             build_and_check(R, nf, np_, lc, cs, names, "shape %d" % i)
+    if shard % 4 == 0:
+        many_types(R, [128, 129, 200, 300][shard // 4 % 4], "many types")
+    if shard % 4 == 1:
+        emitted_many_functions(R, [129, 140, 200, 260][shard // 4 % 4], "many functions")
     for _ in range(6 if tier == "quick" else 80):
         nf = rng.choice([1, 1, 2, 5, 127, 128, 129])
         lc = [(rng.choice(["i32", "f32"]), rng.choice([1, 2, 127, 128, 129, 1000, 16383, 16384])) for _ in range(rng.randint(0, 4))]
